@@ -36,7 +36,7 @@ DT = [torch.float32, torch.float16, torch.bfloat16]
 RANK_OF = {"pool_contract": [2, 2, 3], "bmm": [3], "conv2d": [4], "to_copy": [1, 2, 3, 4, 4, 4], "matmul": [2, 2, 3], "t": [1, 2, 2], "cross_entropy": [2], "linear_rev": [2]}
 REPEAT = {"bmm": 10, "matmul": 8, "linear": 8, "linear_rev": 6, "conv2d": 4, "cat2": 3, "stack2": 3, "where": 3, "lt": 3,
           "copy_": 3, "to_other_dtype": 3, "inplace_qdest": 4, "inplace_fdest": 3, "mm_int_route": 6, "to_copy": 3,
-          "pool_move": 14, "pool_pass": 20, "pool_contract": 6}
+          "linear_reused_weight": 6, "pool_move": 14, "pool_pass": 20, "pool_contract": 6}
 
 
 def crash_class(a, w, kind):
